@@ -75,7 +75,9 @@ def replay(payload):
     if cm:
         combos.append(cm)
     rnd = random.Random(7)
-    combos += [dict(sox_enabled=False), dict(pmvol_method='foa3'), dict(climb_descent_mode='lto'), dict(apu_enabled=False),
+    # (a history: everything fuel-proportional switched off first, then on again - nothing may be remembered from the first run)
+    combos += [dict(co2_enabled=False, h2o_enabled=False, sox_enabled=False), dict(), dict(pmnvol_method='foa3', pmvol_method='fuel_flow'),
+               dict(sox_enabled=False), dict(pmvol_method='foa3'), dict(climb_descent_mode='lto'), dict(apu_enabled=False),
                dict(nox_method='none', hc_method='bffm2', co_method='none'), dict(pmnvol_method='scope11', pmvol_method='none')]
     for _ in range(25):
         combos.append(dict(climb_descent_mode=rnd.choice(cdm), co2_enabled=rnd.random() < .5, h2o_enabled=rnd.random() < .5,
@@ -110,7 +112,9 @@ def replay(payload):
                 e = compute_emissions(pm, fuel, t)
             except (NotImplementedError, RuntimeError) as ex:
                 msg = str(ex).lower()
-                if not any(v in msg for v in nox + pmv + pmn + ['lifecycle']):
+                if str(config.emissions.pmnvol_method.value).lower() == 'foa3' and isinstance(ex, NotImplementedError) and 'foa3' not in msg:
+                    problems.append(dict(options=opts, outcome=f'refused because of pmnvol_method=foa3, but the message names another method: {ex}'))
+                elif not any(v in msg for v in nox + pmv + pmn + ['lifecycle']):
                     problems.append(dict(options=opts, outcome=f'refusal does not name a method: {type(ex).__name__}: {ex}'))
                 continue
             except Exception as ex:   # noqa
@@ -147,6 +151,11 @@ def replay(payload):
             lf = float(e.total_fuel_burn)
             if not np.isfinite(lf) or lf < tf - 1e-9:
                 problems.append(dict(options=opts, outcome=f'total fuel burn {lf} below trajectory fuel {tf}'))
+            for s_, on_, ei_ in ((Species.CO2, config.emissions.co2_enabled, fuel.EI_CO2), (Species.H2O, config.emissions.h2o_enabled, fuel.EI_H2O)):
+                if on_ and tf > 0 and s_ not in e.trajectory_emissions:
+                    problems.append(dict(options=opts, outcome=f'{s_.name} is switched on but the trajectory part has none ({ei_} g/kg x {tf} kg of fuel expected)'))
+            if config.emissions.sox_enabled and tf > 0 and Species.SO2 not in e.trajectory_emissions:
+                problems.append(dict(options=opts, outcome='SOx is switched on but the trajectory part has no SO2'))
             if Species.CO2 in e.trajectory_emissions:
                 tc = float(np.sum(e.trajectory_emissions[Species.CO2]))
                 if abs(tc - fuel.EI_CO2 * tf) > 1e-6 * max(1.0, tc):
